@@ -82,6 +82,12 @@ structure Inv (s : State) : Prop where
   tags : ∀ (i : Nat) (cy : Cycle), s.cycles[i]? = some cy → ∀ t, Pub.cand i t ∈ s.published → t = cy.ufrag
   /-- publications name existing cycles -/
   bound : ∀ p ∈ s.published, Pub.cycle p < s.cycles.length
+  /-- while the gathering state is New (initially, after `Restart`) the agent has no local candidate -/
+  locals_new : s.gstate = .new → s.locals = []
+  /-- every local candidate belongs to a cycle whose context is NOT cancelled, carries the agent's current ufrag
+  and was published -/
+  locals_live : ∀ l ∈ s.locals, ∃ cy, s.cycles[l.1]? = some cy ∧ cy.cancelled = false ∧ l.2 = s.ufrag
+    ∧ Pub.cand l.1 l.2 ∈ s.published
 
 theorem inv_init : Inv init := by
   constructor <;> simp [init, nilLast]
@@ -138,10 +144,19 @@ theorem inv_set {s : State} (hi : Inv s) {c : Nat} {cy cy' : Cycle} (hget : s.cy
       exact hi.tags _ cy hget t ht
     · exact hi.tags i x hx t ht
   · intro p hp; simp only [List.length_set]; exact hi.bound p hp
+  · exact hi.locals_new
+  · intro l hl
+    obtain ⟨y, hy, hyc, hyu, hyp⟩ := hi.locals_live l hl
+    simp only [get_set_of_get hget]
+    split
+    · rename_i hci; subst hci
+      rw [hget] at hy; cases hy
+      exact ⟨cy', rfl, by rw [hc]; exact hyc, hyu, hyp⟩
+    · exact ⟨y, hy, hyc, hyu, hyp⟩
 
 /-- Cancelling the current cycle (and possibly changing the agent's ufrag / gathering state afterwards) -/
 theorem inv_cancelCur {s : State} (hi : Inv s) (u : Nat) (g : GState) :
-    Inv { s with cycles := cancelCur s, ufrag := u, gstate := g } := by
+    Inv { s with cycles := cancelCur s, ufrag := u, gstate := g, locals := [] } := by
   have live_none : ∀ (i : Nat) (x : Cycle), (cancelCur s)[i]? = some x → x.cancelled = false → False := by
     intro i x hx hcx
     rw [get_cancelCur] at hx
@@ -177,6 +192,8 @@ theorem inv_cancelCur {s : State} (hi : Inv s) (u : Nat) (g : GState) :
     obtain ⟨y, hy, hu, _, _, _⟩ := orig i x hx
     rw [hu]; exact hi.tags i y hy t ht
   · intro p hp; simp only [length_cancelCur]; exact hi.bound p hp
+  · intro _; rfl
+  · intro l hl; cases hl
 
 theorem inv_gatherCall {s s' : State} (hi : Inv s) (h : step s .gatherCall = some s') : Inv s' := by
   simp only [step] at h
@@ -248,6 +265,10 @@ theorem inv_gatherCall {s s' : State} (hi : Inv s) (h : step s .gatherCall = som
       · intro p hp
         have := hi.bound p hp
         simp [length_cancelCur]; omega
+      · intro _; exact hi.locals_new hnew
+      · intro l hl
+        have hl' : l ∈ s.locals := hl
+        rw [hi.locals_new hnew] at hl'; cases hl'
 
 theorem inv_restart {s s' : State} (u : Nat) (hi : Inv s) (h : step s (.restart u) = some s') : Inv s' := by
   simp only [step] at h
@@ -269,6 +290,8 @@ theorem inv_close {s s' : State} (hi : Inv s) (h : step s .close = some s') : In
     · exact hi.order
     · exact hi.tags
     · exact hi.bound
+    · intro _; rfl
+    · intro l hl; cases hl
 
 /-- closing flag does not matter for `inv_set` results -/
 theorem inv_set' {s s' : State} (hi : Inv s) {c : Nat} {cy cy' : Cycle} (hget : s.cycles[c]? = some cy)
@@ -330,6 +353,15 @@ theorem inv_cycleStart {s s' : State} (c : Nat) (hi : Inv s) (h : step s (.cycle
             · rename_i hci; cases hx; subst hci; exact hi.tags _ cy hget t ht
             · exact hi.tags i x hx t ht
           · intro p hp; simp only [List.length_set]; exact hi.bound p hp
+          · intro hg; cases hg
+          · intro l hl
+            obtain ⟨y, hy, hyc, hyu, hyp⟩ := hi.locals_live l hl
+            simp only [get_set_of_get hget]
+            split
+            · rename_i hci; subst hci
+              rw [hget] at hy; cases hy
+              exact ⟨_, rfl, hyc, hyu, hyp⟩
+            · exact ⟨y, hy, hyc, hyu, hyp⟩
   · cases h
 
 theorem inv_pubCheck {s s' : State} (c : Nat) (hi : Inv s) (h : step s (.pubCheck c) = some s') : Inv s' := by
@@ -371,6 +403,19 @@ theorem inv_pubAbort {s s' : State} (c : Nat) (hi : Inv s) (h : step s (.pubAbor
     · cases h
   · cases h
 
+theorem inv_pubRefuse {s s' : State} (c : Nat) (hi : Inv s) (h : step s (.pubRefuse c) = some s') : Inv s' := by
+  simp only [step] at h
+  split at h
+  · rename_i cy hget
+    split at h
+    · rename_i hcond
+      cases h
+      exact inv_set hi hget rfl rfl rfl
+        (by intro hcan _; exact hi.live_gstate c cy hget hcan (Or.inl hcond.1))
+        (by intro hcc; have := hi.completed_done c cy hget hcc; rw [hcond.1] at this; cases this)
+    · cases h
+  · cases h
+
 theorem inv_gatherersDone {s s' : State} (c : Nat) (hi : Inv s) (h : step s (.gatherersDone c) = some s') :
     Inv s' := by
   simp only [step] at h
@@ -389,7 +434,8 @@ theorem inv_gatherersDone {s s' : State} (c : Nat) (hi : Inv s) (h : step s (.ga
 `addCandidate`) with the agent's current ufrag — which is the cycle's own (`live_ufrag`) -/
 theorem inv_publish_cand {s : State} (hi : Inv s) {c : Nat} {cy : Cycle} (hget : s.cycles[c]? = some cy)
     (hpc : cy.pc = .gathering) (hcan : cy.cancelled = false) :
-    Inv { s with published := s.published ++ [Pub.cand c s.ufrag] } := by
+    Inv { s with published := s.published ++ [Pub.cand c s.ufrag], locals := s.locals ++ [(c, s.ufrag)] } := by
+  have hgs : s.gstate = .gathering := hi.live_gstate c cy hget hcan (Or.inl hpc)
   have hnil : Pub.nil c ∉ s.published := nil_not_mem hi hget (by rw [hpc]; simp)
   constructor
   · exact hi.live_cur
@@ -421,6 +467,17 @@ theorem inv_publish_cand {s : State} (hi : Inv s) {c : Nat} {cy : Cycle} (hget :
       rcases Nat.lt_or_ge c s.cycles.length with h' | h'
       · exact h'
       · rw [List.getElem?_eq_none h'] at hget; cases hget
+  · intro hg
+    have hg' : s.gstate = .new := hg
+    rw [hgs] at hg'; cases hg'
+  · intro l hl
+    have hl' : l ∈ s.locals ++ [(c, s.ufrag)] := hl
+    simp only [List.mem_append, List.mem_singleton] at hl'
+    rcases hl' with hl' | hl'
+    · obtain ⟨y, hy, hyc, hyu, hyp⟩ := hi.locals_live l hl'
+      exact ⟨y, hy, hyc, hyu, List.mem_append_left _ hyp⟩
+    · subst hl'
+      exact ⟨cy, hget, hcan, rfl, List.mem_append_right _ (List.mem_singleton.mpr rfl)⟩
 
 theorem inv_pubTask {s s' : State} (c : Nat) (hi : Inv s) (h : step s (.pubTask c) = some s') : Inv s' := by
   simp only [step] at h
@@ -430,7 +487,8 @@ theorem inv_pubTask {s s' : State} (c : Nat) (hi : Inv s) (h : step s (.pubTask 
     · rename_i hcond
       cases h
       have h1 := inv_publish_cand hi hget hcond.1 hcond.2.2.2
-      have hget' : ({ s with published := s.published ++ [Pub.cand c s.ufrag] } : State).cycles[c]? = some cy := hget
+      have hget' : ({ s with published := s.published ++ [Pub.cand c s.ufrag],
+                             locals := s.locals ++ [(c, s.ufrag)] } : State).cycles[c]? = some cy := hget
       exact inv_set (cy' := { cy with checked := cy.checked - 1 }) h1 hget' rfl rfl rfl
         (by intro hcan _; exact hi.live_gstate c cy hget hcan (Or.inl hcond.1))
         (by intro hcc; have := hi.completed_done c cy hget hcc; rw [hcond.1] at this; cases this)
@@ -515,6 +573,15 @@ theorem inv_cycleFinish {s s' : State} (c : Nat) (hi : Inv s) (h : step s (.cycl
               rcases Nat.lt_or_ge c s.cycles.length with h' | h'
               · exact h'
               · rw [List.getElem?_eq_none h'] at hget; cases hget
+          · intro hg; cases hg
+          · intro l hl
+            obtain ⟨y, hy, hyc, hyu, hyp⟩ := hi.locals_live l hl
+            simp only [get_set_of_get hget]
+            split
+            · rename_i hci; subst hci
+              rw [hget] at hy; cases hy
+              exact ⟨_, rfl, hyc, hyu, List.mem_append_left _ hyp⟩
+            · exact ⟨y, hy, hyc, hyu, List.mem_append_left _ hyp⟩
   · cases h
 
 theorem inv_step {s s' : State} (a : Action) (hi : Inv s) (h : step s a = some s') : Inv s' := by
@@ -527,6 +594,7 @@ theorem inv_step {s s' : State} (a : Action) (hi : Inv s) (h : step s a = some s
   | pubTask c => exact inv_pubTask c hi h
   | pubSkip c => exact inv_pubSkip c hi h
   | pubAbort c => exact inv_pubAbort c hi h
+  | pubRefuse c => exact inv_pubRefuse c hi h
   | gatherersDone c => exact inv_gatherersDone c hi h
   | cycleFinish c => exact inv_cycleFinish c hi h
 
